@@ -94,10 +94,16 @@ class Nextline:
         if self._closed:
             return
         self._closed = True
-        # The plugins need to be initialized for the transition to "closed".
-        await self.start()
-        await self._imp.aclose()
-        await self._continuous.close()
+        try:
+            # The plugins need to be initialized for the transition to "closed".
+            await self.start()
+            await self._imp.aclose()
+            await self._continuous.close()
+        except BaseException:
+            # Not closed, e.g., cancelled on the timeout in `__aexit__()`. Let
+            # `close()` be called again.
+            self._closed = False
+            raise
 
     async def __aenter__(self) -> 'Nextline':
         await self.start()
